@@ -24,3 +24,7 @@ pub open spec fn VoterEnum_enc(x: VoterEnum) -> Seq<Tok> {
         VoterEnum::StakingPool(h) => seq![Tok::Arr(2), Tok::UInt(4)] + h.enc(),
     }
 }
+// redeemer_tag = 0 spend / 1 mint / 2 cert / 3 reward / 4 voting / 5 proposing
+pub open spec fn RedeemerTagKind_enc(x: RedeemerTagKind) -> Seq<Tok> {
+    seq![Tok::UInt(match x { RedeemerTagKind::Spend => 0, RedeemerTagKind::Mint => 1, RedeemerTagKind::Cert => 2, RedeemerTagKind::Reward => 3, RedeemerTagKind::Vote => 4, RedeemerTagKind::VotingProposal => 5 })]
+}
